@@ -206,6 +206,10 @@ type reuseCase struct {
 	ID   int               `json:"id"`
 	Docs []json.RawMessage `json:"docs"`
 	Cont bool              `json:"cont"`
+	// SameDoc: Docs holds one document; the very same loaded *loads.Document is validated Again times, each time
+	// with a fresh validator (fresh: a newly loaded copy validated once)
+	SameDoc bool `json:"same_doc,omitempty"`
+	Again   int  `json:"again,omitempty"`
 }
 
 func reuseRun(in *bufio.Scanner, out *bufio.Writer) {
@@ -216,6 +220,38 @@ func reuseRun(in *bufio.Scanner, out *bufio.Writer) {
 		}
 		rec := map[string]interface{}{"id": c.ID}
 		var reused, fresh []specRun
+		if c.SameDoc && len(c.Docs) == 1 {
+			sc := specCase{Doc: c.Docs[0]}
+			fresh = append(fresh, runSpec(&sc, c.Cont, true))
+			func() {
+				defer func() {
+					if x := recover(); x != nil {
+						reused = append(reused, specRun{Outcome: "panic", Panic: panicClass(x) + ": " + fmt.Sprint(x), Stack: shortStack(), Errors: []string{}, Warnings: []string{}, ErrWarns: []string{}})
+						validate.VerifReset(validate.VerifOff, false)
+					}
+				}()
+				doc, err := loadDoc(&sc)
+				if err != nil {
+					return
+				}
+				for i := 0; i < c.Again; i++ {
+					v := validate.NewSpecValidator(doc.Schema(), strfmt.Default)
+					v.Options.ContinueOnErrors = c.Cont
+					v.Options.StrictPathParamUniqueness = true
+					errs, warns := v.Validate(doc)
+					reused = append(reused, specRun{Outcome: "ok", Valid: errs.IsValid(), Errors: texts(errs.Errors), Warnings: texts(warns.Errors), ErrWarns: texts(errs.Warnings)})
+				}
+			}()
+			for len(fresh) < len(reused) {
+				fresh = append(fresh, fresh[0])
+			}
+			rec["fresh"] = fresh
+			rec["reused"] = reused
+			b, _ := json.Marshal(rec)
+			out.Write(b)
+			out.WriteString("\n")
+			continue
+		}
 		func() {
 			var v *validate.SpecValidator
 			for _, raw := range c.Docs {
